@@ -49,6 +49,11 @@ MCInit ==
            /\ k <= n
            /\ input = [MkInput(ptr, n, <<None, None, None>>, None, "", "", TRUE, <<>>, FALSE)
                          EXCEPT !.mods[1].defs[1].vft.funcs[k].addr = 8192]
+     (* a second calling_convention attribute with an unknown name next to a valid one *)
+     \/ \E ptr \in Ptrs, onV \in BOOLEAN :
+           input = [MkInput(ptr, 2, <<None, None, None>>, None, "cdecl", "fastcall", TRUE, <<>>, FALSE)
+                      EXCEPT !.mods[1].defs[1].vft.funcs[2].xattrs = IF onV THEN <<BogusCC>> ELSE <<>>,
+                             !.mods[1].impls[1].funcs[1].xattrs = IF onV THEN <<>> ELSE <<BogusCC>>]
      (* the convention sweep: every name on the slot and on the wrapper, the other dimensions at rest *)
      \/ \E ptr \in Ptrs, cc \in SweepCCs \cup {""}, icc \in SweepCCs \cup {""}, recv \in BOOLEAN :
            input = MkInput(ptr, 2, <<None, None, None>>, None, cc, icc, recv, <<>>, FALSE)
@@ -62,8 +67,9 @@ VDef == input.mods[1].defs[1]
 VPath == <<"m", "V">>
 TabPath == <<"m", "VVftable">>
 
-BadCC == (\E i \in DOMAIN VDef.vft.funcs : VDef.vft.funcs[i].cc \notin Conventions \cup {""})
+BadCC == (\E i \in DOMAIN VDef.vft.funcs : VDef.vft.funcs[i].cc \notin Conventions \cup {""} \/ HasBadExtra(VDef.vft.funcs[i]))
          \/ input.mods[1].impls[1].funcs[1].cc \notin Conventions \cup {""}
+         \/ HasBadExtra(input.mods[1].impls[1].funcs[1])
 
 KF_Contradictory == ~CHECKIDX /\ ContradictoryVft(VDef.vft)
 
